@@ -250,6 +250,86 @@ Definition call_cb (m : meth) (f : callback) (l : list elem) : elem * list elem 
 Definition call_reduce (f : rcallback) (l : list elem) (init : list elem) : elem * list elem :=
   (m_reduce f l (ENull :: bind [PSingle] init), l).
 
+(* ------------------------------------------------------------------ callbacks that throw *)
+(* a callback either returns a value or throws (None); every callback loop returns the throw at
+   once (`if ctl != nil { return nil, ctl }`), the methods hold the slot list by value and have
+   written nothing: result None = the throw propagates, receiver unchanged *)
+Definition callbackT := elem -> Z -> list elem -> option elem.
+Fixpoint map_loopT (f : callbackT) (all : list elem) (i : Z) (l : list elem) : option (list elem) :=
+  match l with
+  | [] => Some []
+  | x :: r => match f x i all with
+              | None => None
+              | Some y => match map_loopT f all (i + 1) r with None => None | Some ys => Some (y :: ys) end
+              end
+  end.
+Fixpoint filter_loopT (f : callbackT) (all : list elem) (i : Z) (l : list elem) : option (list elem) :=
+  match l with
+  | [] => Some []
+  | x :: r => match f x i all with
+              | None => None
+              | Some y => match filter_loopT f all (i + 1) r with
+                          | None => None
+                          | Some ys => Some (if truthy y then x :: ys else ys)
+                          end
+              end
+  end.
+Fixpoint find_loopT (f : callbackT) (all : list elem) (i : Z) (l : list elem) : option (option (Z * elem)) :=
+  match l with
+  | [] => Some None
+  | x :: r => match f x i all with
+              | None => None
+              | Some y => if truthy y then Some (Some (i, x)) else find_loopT f all (i + 1) r
+              end
+  end.
+Fixpoint every_loopT (f : callbackT) (all : list elem) (i : Z) (l : list elem) : option bool :=
+  match l with
+  | [] => Some true
+  | x :: r => match f x i all with
+              | None => None
+              | Some y => if truthy y then every_loopT f all (i + 1) r else Some false
+              end
+  end.
+Fixpoint foreach_loopT (f : callbackT) (all : list elem) (i : Z) (l : list elem) : option unit :=
+  match l with
+  | [] => Some tt
+  | x :: r => match f x i all with None => None | Some _ => foreach_loopT f all (i + 1) r end
+  end.
+Fixpoint flatmap_loopT (f : callbackT) (all : list elem) (i : Z) (l : list elem) : option (list elem) :=
+  match l with
+  | [] => Some []
+  | x :: r => match f x i all with
+              | None => None
+              | Some y => match flatmap_loopT f all (i + 1) r with None => None | Some ys => Some (spread1 y ++ ys)%list end
+              end
+  end.
+(* result None = the callback's throw came out of the method *)
+Definition call_cbT (m : meth) (f : callbackT) (l : list elem) : option elem * list elem :=
+  match m with
+  | MMap => (option_map EArr (map_loopT f l 0 l), l)
+  | MFilter => (option_map EArr (filter_loopT f l 0 l), l)
+  | MFind => (option_map (fun r => match r with Some (_, x) => x | None => ENull end) (find_loopT f l 0 l), l)
+  | MFindIndex => (option_map (fun r => match r with Some (i, _) => EInt i | None => EInt (-1) end) (find_loopT f l 0 l), l)
+  | MForEach => (option_map (fun _ => ENull) (foreach_loopT f l 0 l), l)
+  | MEvery => (option_map EBool (every_loopT f l 0 l), l)
+  | MSome => (option_map (fun r => EBool (match r with Some _ => true | None => false end)) (find_loopT f l 0 l), l)
+  | MFlatMap => (option_map EArr (flatmap_loopT f l 0 l), l)
+  | _ => (Some ENull, l)
+  end.
+(* how many times the callback is invoked (short-circuit methods stop early) *)
+Fixpoint visits_until (stop : elem -> bool) (f : callback) (all : list elem) (i : Z) (l : list elem) : nat :=
+  match l with
+  | [] => O
+  | x :: r => if stop (f x i all) then 1%nat else S (visits_until stop f all (i + 1) r)
+  end.
+Definition visits (m : meth) (f : callback) (l : list elem) : nat :=
+  match m with
+  | MFind | MFindIndex | MSome => visits_until truthy f l 0 l
+  | MEvery => visits_until (fun y => negb (truthy y)) f l 0 l
+  | MMap | MFilter | MForEach | MFlatMap => List.length l
+  | _ => O
+  end.
+
 (* ------------------------------------------------------------------ sequences of calls on one receiver *)
 (* one step of a sequence: a callback-free method with its arguments, a callback method with its
    callback, or reduce *)
